@@ -196,10 +196,10 @@ func checkC10(c *Ctx) {
 			switch n := n.(type) {
 			case *pseudo:
 				if cc, ok := n.stmt.(*ast.CommClause); ok {
-					if n.kind == "ARM:recv" && commOn(info, cc, m.fChan) {
+					if n.kind == "ARM:recv" && commOn(info, cc, m.fChanRecv) {
 						return []string{"RECV"}
 					}
-					if n.kind == "ARM:default" && selectOn(w, info, cc, m.fChan) {
+					if n.kind == "ARM:default" && selectOn(w, info, cc, m.fChanRecv) {
 						return []string{"DEFAULT"}
 					}
 				}
@@ -271,7 +271,7 @@ func checkC10(c *Ctx) {
 	}
 	sawRecv := false
 	walkNoLit(m.next.Body, func(n ast.Node) bool {
-		if cc, ok := n.(*ast.CommClause); ok && commOn(info, cc, m.fChan) {
+		if cc, ok := n.(*ast.CommClause); ok && commOn(info, cc, m.fChanRecv) {
 			sawRecv = true
 		}
 		return true
@@ -337,6 +337,18 @@ func checkC10(c *Ctx) {
 						if _, isSel := unparen(l).(*ast.SelectorExpr); isSel && lastField(info, l) == m.fChan && len(n.Rhs) == len(n.Lhs) {
 							if isChanVar(n.Rhs[i]) {
 								return []string{"STOREPENDING"}
+							}
+							// nested: &T{…, <channel field>: ch}
+							if m.fChanRecv != m.fChan {
+								r := unparen(n.Rhs[i])
+								if u, ok := r.(*ast.UnaryExpr); ok && u.Op == token.AND {
+									r = unparen(u.X)
+								}
+								if cl, ok := r.(*ast.CompositeLit); ok {
+									if fv := litField(cl, m.fChanRecv.Name()); fv != nil && isChanVar(fv) {
+										return []string{"STOREPENDING"}
+									}
+								}
 							}
 							if isNilExpr(info, n.Rhs[i]) {
 								return []string{"CLEARPENDING"}
